@@ -398,6 +398,20 @@ func init() {
 			g.resets++
 			return e.ts.Bool(was)
 		},
+		hname("vTimerWait"): func(e *Engine, fn *ssa.Function, a []Value) Value {
+			// a[0] is *rtxTimer: its first field is the *time.Timer
+			tp := a[0].(Ptr)
+			timerPtr := e.load(tp.c.kids[0]).(Ptr)
+			g := e.ghostOf(timerPtr.c)
+			d := g.timerDur
+			if d == nil || !g.timerArmed {
+				return e.ts.BVConst(64, 0)
+			}
+			g.timerArmed = false
+			m := e.prog.LookupMethod(types.NewPointer(tp.c.typ), e.pkg.Pkg, "timeout")
+			e.callFunction(m, []Value{tp}, 0)
+			return d
+		},
 		hname("vTimerArmedNative"): func(e *Engine, fn *ssa.Function, a []Value) Value {
 			p := a[0].(Ptr)
 			if p.c == nil {
